@@ -55,6 +55,24 @@ def run(ctx):
             dod, Lf, table = oracle.table_oracle(c["edges"], c["weights"], c["massive"], ext, c["D"])
             if not oracle.divergent_subsets(table):
                 cases.append(dict(c, ext=ext, table=table, dod=dod, loops=Lf, accepted=True, name=c["name"] + "+repeated_externals"))
+    # exactly ONE external vertex (listed once or twice): "touches the external vertex" still decides the spanning flag - accepted graphs
+    # whose table differs from the one of the same graph without externals, in every run
+    got = 0
+    for _ in range(200):
+        if got >= (4 if ctx.quick else 16):
+            break
+        nm = rng.choice(["triangle", "box", "sunrise", "bubble", "kite", "double_triangle"])
+        edges = gen.relabel(rng, list(gen.CATALOGUE[nm]))[0]
+        c0 = graphs.make_case(rng, edges, rng.randint(2, 4), want=True, ext_mode="all", mass_mode=rng.choice(["none", "some"]))
+        if c0 is None or not c0["accepted"]:
+            continue
+        v = rng.choice(sorted(set(t for e in edges for t in e)))
+        ext = [v] * rng.choice([1, 1, 2])
+        dod, Lf, table = oracle.table_oracle(c0["edges"], c0["weights"], c0["massive"], ext, c0["D"])
+        _, _, table0 = oracle.table_oracle(c0["edges"], c0["weights"], c0["massive"], [], c0["D"])
+        if not oracle.divergent_subsets(table) and any(a[1] != b[1] for a, b in zip(table, table0)):
+            cases.append(dict(c0, ext=ext, table=table, dod=dod, loops=Lf, accepted=True, name=nm + "+single_external")); got += 1
+    ctx.count("single_external_cases", got)
     from .. import samples as S_
     cases += S_.big_dimension_cases(rng)          # D = 260 and D = 13 (pi^(D L/2) at D L = 13, 260)
     for kind in ("repeated_weights", "weights_equal_dod") * (4 if ctx.quick else 15):
